@@ -115,6 +115,24 @@ theorem GEN_start_file (fs : Gen.Fs) (doc : List (String × String)) (ncpu : Nat
     | err => rfl
     | panic s => rfl
 
+/-- `GEN_start_file` without the plain-word hypothesis: with key scalars that resolve to YAML strings in any spelling
+    (quoted or plain), the translated file start-up is the model's start-up on the entries under their resolved keys -/
+theorem GEN_start_file_resolved (fs : Gen.Fs) (doc : List (String × String)) (ncpu : Nat) (path : String) (hne : doc ≠ [])
+    (rk : String → String) (hkeys : ∀ kv ∈ doc, yamlStr kv.1 = some (rk kv.1)) :
+    genStartFile fs doc ncpu path =
+      (start (fsOf fs) { numWorkers := ncpu } .file (doc.map fun kv => (rk kv.1, kv.2))).map eraseKms := by
+  have hb := file_config_new_eq_resolved doc ncpu path hne rk hkeys
+  refine start_aux fs _ _ cfgOfFile hb _ ?_ ?_
+  · intro g hg
+    unfold genStartFile
+    rw [hg]
+  · intro hn
+    unfold genStartFile
+    cases hr : Gen.FileConfig.new [doc] ncpu path with
+    | ok g => rw [hr] at hn; cases hn
+    | err => rfl
+    | panic s => rfl
+
 /-- the translated environment start-up IS the model's `start … .env` on the settings present (values the harness's
     un-quoting leaves alone) -/
 theorem GEN_start_env (fs : Gen.Fs) (env : List (String × String)) (ncpu : Nat)
